@@ -1,1 +1,364 @@
-/- C16 — property theorems (stub: the slice is not built yet). -/
+import GB.C16.Proofs
+/-
+  C16 — targets can be added, removed and re-added cleanly.  Property theorems only.
+
+  `afterR true ops` is the state of the model of the (fixed) code after the router history `ops`
+  (Add with an injected construction outcome / Remove / pool lookup / stream / in-flight call, over
+  any names) from a fresh ReflectionRouter; every theorem below quantifies over ALL such histories.
+  `fx = true` is the code after the D17 fix, `fx = false` the original code (negative witness only).
+-/
+open GB GB.C16
+
+/-- Refinement: along every history the results of Add/Remove are exactly those of the abstract
+    `present`-set machine (Add succeeds iff the name is not present and construction succeeds;
+    Remove answers presence), no operation panics or hangs (`classify` maps those to `fault`, which
+    the specification never produces), and the final `targets` map is the final `present` set. -/
+theorem C16_refines_present (ops : List ROp) :
+    (runR true init ops).2.map classify = (specRunR (fun _ => false) ops).2 ∧
+    ∀ n, (specRunR (fun _ => false) ops).1 n = ((afterR true ops).targets n).isSome :=
+  abs_runR inv_init (fun _ => rfl) ops
+
+/-- A name that is not present is addable whenever construction succeeds — after ANY history,
+    including failed Adds and removals of the same name. -/
+theorem C16_addable (ops : List ROp) (n : Name) (h : (afterR true ops).targets n = none) :
+    (add true (afterR true ops) n .ok).2 = .add .ok (some .absent) ∧
+    ((add true (afterR true ops) n .ok).1.targets n).isSome = true := by
+  rw [add_absent (inv_afterR ops) n .ok h]
+  simp [addedState]
+
+/-- Add of a present name fails and has no side effect at all (in any state). -/
+theorem C16_add_present_no_effect (s : State) (n : Name) (o : Outcome) (g : Nat) (h : s.targets n = some g) :
+    add true s n o = (s, .add .dup none) :=
+  add_present s n o g h
+
+/-- A failed Add (constructor error, or per-target options) leaves nothing behind: every map, set
+    and object state is what it was (only the allocation counter may have moved), so by
+    `C16_addable` the name stays addable. -/
+theorem C16_add_failed_no_effect (ops : List ROp) (n : Name) (o : Outcome) (ho : o ≠ .ok)
+    (h : (afterR true ops).targets n = none) :
+    let s := afterR true ops
+    let s' := (add true s n o).1
+    (add true s n o).2 ≠ .add .ok (some .absent) ∧
+    s'.targets = s.targets ∧ s'.conns = s.conns ∧ s'.patternSet = s.patternSet ∧ s'.serviceSet = s.serviceSet ∧
+    s'.polling = s.polling ∧ s'.connOpen = s.connOpen ∧ s'.pwOpen = s.pwOpen ∧ s'.swOpen = s.swOpen ∧
+    s'.clientSet = s.clientSet ∧ s'.ctrlClosed = s.ctrlClosed ∧ s'.handles = s.handles ∧ s'.calls = s.calls := by
+  intro s s'
+  have hi := inv_afterR ops
+  have hc : s.conns n = none := by rw [hi.conns_eq]; exact h
+  have e := add_absent hi n o h
+  cases o with
+  | ok => exact absurd rfl ho
+  | fail =>
+    simp only [s', s] at *
+    rw [e]
+    simp [failedState, upd_upd_none _ _ _ hc]
+  | opts =>
+    simp only [s', s] at *
+    rw [e]
+    simp
+
+/-- Remove of a present name: it answers true, and afterwards the resolver's poller is stopped, both
+    router watchers are closed and unregistered, the pool entry is gone (lookup answers absent), the
+    connection is closed, no call is in flight on it any more, every caller that kept the connection
+    gets Unavailable from Stream, and the name is no longer present. -/
+theorem C16_remove (ops : List ROp) (n : Name) (g : Nat) (h : (afterR true ops).targets n = some g) :
+    let s := afterR true ops
+    let s' := (remove s n).1
+    (remove s n).2 = .removed ∧
+    s'.polling g = false ∧ s'.pwOpen g = false ∧ s'.swOpen g = false ∧
+    s'.patternSet n = false ∧ s'.serviceSet n = false ∧
+    s'.conns n = none ∧ poolGet true s' n = .absent ∧
+    s'.connOpen g = false ∧ (∀ c, s'.calls c ≠ some g) ∧
+    (∀ m, s.handles m = some g → stream s' m = .unavailable) ∧
+    s'.targets n = none := by
+  intro s s'
+  have hi := inv_afterR ops
+  simp only [s', s]
+  rw [remove_present hi n g h]
+  refine ⟨rfl, by simp [removedState], by simp [removedState], by simp [removedState], by simp [removedState],
+    by simp [removedState], by simp [removedState], by simp [removedState, poolGet], by simp [removedState], ?_, ?_,
+    by simp [removedState]⟩
+  · intro c hc
+    simp [removedState] at hc
+  · intro m hm
+    simp [stream, removedState, hm]
+
+/-- Remove of a name that is not present answers false and changes nothing. -/
+theorem C16_remove_absent (s : State) (n : Name) (h : s.targets n = none) : remove s n = (s, .notPresent) :=
+  remove_absent s n h
+
+/-- Later stream attempts fail with Unavailable: a caller that kept the connection of a target, after that
+    target was removed, gets Unavailable from every stream attempt during ANY further history (including
+    re-adding the same name), as long as it does not fetch a new connection from the pool. -/
+theorem C16_stream_after_remove (ops more : List ROp) (n : Name) (g : Nat)
+    (ht : (afterR true ops).targets n = some g) (hh : (afterR true ops).handles n = some g)
+    (hno : ∀ op ∈ more, op ≠ .get n) :
+    stream (runR true (remove (afterR true ops) n).1 more).1 n = .unavailable := by
+  have hi := inv_afterR ops
+  have l := hi.live n g ht
+  rw [remove_present hi n g ht]
+  apply stale_runR (inv_removed hi n g ht) (g := g)
+  · simp [removedState, hh]
+  · exact ⟨by simp [removedState]; exact l.1, by simp [removedState]⟩
+  · exact hno
+
+/-- A pool lookup yields a usable (open) connection exactly for the present names and reports absence
+    for all others — never a present-but-missing entry. -/
+theorem C16_pool_get (ops : List ROp) (n : Name) :
+    let s := afterR true ops
+    (s.targets n = none ∧ poolGet true s n = .absent) ∨
+    (∃ g, s.targets n = some g ∧ poolGet true s n = .usable g ∧ s.connOpen g = true) := by
+  intro s
+  have hi := inv_afterR ops
+  cases hn : s.targets n with
+  | none =>
+    left
+    have hc : s.conns n = none := by rw [hi.conns_eq]; exact hn
+    simp [poolGet, hc]
+  | some g =>
+    right
+    have hc : s.conns n = some g := by rw [hi.conns_eq]; exact hn
+    have l := hi.live n g hn
+    have hcs : s.clientSet g = true := l.2.2.1
+    exact ⟨g, rfl, by simp [poolGet, hc, hcs], l.2.2.2.2.1⟩
+
+/-- While the connection constructor of an Add runs, the half-built entry is invisible: a concurrent
+    pool lookup of that name answers absent (this is the lookup the harness performs from inside the
+    injected constructor). -/
+theorem C16_pool_get_during_construction (ops : List ROp) (n : Name) (s1 : State)
+    (h : poolReserve (afterR true ops) n = some s1) : poolGet true s1 n = .absent := by
+  have hi := inv_afterR ops
+  unfold poolReserve at h
+  split at h
+  · cases h
+  · cases h
+    simp [poolGet, hi.fresh.2.2.2.2.2]
+
+/-- The watcher sets of both routers are exactly the present names, so the "should never happen"
+    branches of Add (Watch failing, the pool reporting ErrAlreadyDialed) are dead code, and no
+    operation of any history panics or blocks. -/
+theorem C16_watch_never_fails (ops : List ROp) :
+    (∀ n, (afterR true ops).patternSet n = ((afterR true ops).targets n).isSome) ∧
+    (∀ n, (afterR true ops).serviceSet n = ((afterR true ops).targets n).isSome) ∧
+    (∀ op p, (stepR true (afterR true ops) op).2 ≠ .add .watchP p ∧
+             (stepR true (afterR true ops) op).2 ≠ .add .watchS p ∧
+             (stepR true (afterR true ops) op).2 ≠ .add .dialed p ∧
+             (stepR true (afterR true ops) op).2 ≠ .panic ∧
+             (stepR true (afterR true ops) op).2 ≠ .hang) := by
+  have hi := inv_afterR ops
+  refine ⟨hi.pset, hi.sset, ?_⟩
+  intro op p
+  cases op with
+  | add n o =>
+    cases hn : (afterR true ops).targets n with
+    | some g => simp [stepR, add_present _ n o g hn]
+    | none =>
+      simp only [stepR]
+      rw [add_absent hi n o hn]
+      cases o <;> simp
+  | remove n =>
+    cases hn : (afterR true ops).targets n with
+    | some g => simp only [stepR]; rw [remove_present hi n g hn]; simp
+    | none => simp only [stepR]; rw [remove_absent _ n hn]; simp
+  | get n => simp only [stepR]; unfold GB.C16.get; split <;> simp
+  | stream n => simp only [stepR]; unfold stream; split <;> (try split) <;> simp
+  | call n =>
+    simp only [stepR]; unfold call
+    split
+    · simp
+    · split <;> simp
+
+/-- No background goroutine or connection without an owner: in every reachable state, every running
+    resolver poller, every open connection and every open watcher belongs to a present target, the
+    owner is unique, and every call in flight runs on an open connection. -/
+theorem C16_no_leak (ops : List ROp) (g : Nat) :
+    let s := afterR true ops
+    ((s.polling g = true ∨ s.connOpen g = true ∨ s.pwOpen g = true ∨ s.swOpen g = true) →
+      ∃ n, s.targets n = some g ∧ ∀ m, s.targets m = some g → m = n) ∧
+    (∀ c, s.calls c = some g → s.connOpen g = true) := by
+  intro s
+  have hi := inv_afterR ops
+  refine ⟨?_, fun c hc => hi.calls_open c g hc⟩
+  intro h
+  obtain ⟨n, hn⟩ := hi.owned g h
+  exact ⟨n, hn, fun m hm => hi.inj hm hn⟩
+
+/-- Once every target has been removed nothing is left: no poller, no open connection, no watcher,
+    no pool entry, no call in flight. -/
+theorem C16_all_removed_nothing_left (ops : List ROp) (h : ∀ n, (afterR true ops).targets n = none) :
+    let s := afterR true ops
+    ∀ g, s.polling g = false ∧ s.connOpen g = false ∧ s.pwOpen g = false ∧ s.swOpen g = false ∧
+      s.conns g = none ∧ s.calls g = none := by
+  intro s g
+  have hi := inv_afterR ops
+  have key : ∀ (b : Bool), (b = true → ∃ n, s.targets n = some g) → b = false := by
+    intro b hb
+    cases b with
+    | false => rfl
+    | true =>
+      obtain ⟨n, hn⟩ := hb rfl
+      rw [h n] at hn; cases hn
+  refine ⟨key _ (fun e => hi.owned _ (Or.inl e)), key _ (fun e => hi.owned _ (Or.inr (Or.inl e))),
+    key _ (fun e => hi.owned _ (Or.inr (Or.inr (Or.inl e)))), key _ (fun e => hi.owned _ (Or.inr (Or.inr (Or.inr e)))),
+    by rw [hi.conns_eq]; exact h g, ?_⟩
+  cases hc : s.calls g with
+  | none => rfl
+  | some g' =>
+    have ho := hi.calls_open g g' hc
+    obtain ⟨n, hn⟩ := hi.owned g' (Or.inr (Or.inl ho))
+    rw [h n] at hn; cases hn
+
+
+/-- Direct pool use (New / Get / controller Close in any order, with failing constructions): a lookup
+    yields an open, unclosed connection or reports absence — never a present-but-missing entry. -/
+theorem C16_pool_direct_get (ops : List POp) (n : Name) :
+    let s := afterP true ops
+    poolGet true s n = .absent ∨
+    ∃ g, poolGet true s n = .usable g ∧ s.connOpen g = true ∧ s.ctrlClosed g = false := by
+  intro s
+  have hi := pinv_afterP ops
+  cases hn : s.conns n with
+  | none => left; simp [poolGet, hn]
+  | some g =>
+    right
+    have e := hi.entry n g hn
+    have hcs : s.clientSet g = true := e.2.2.1
+    exact ⟨g, by simp [poolGet, hn, hcs], e.2.2.2.2, e.2.2.2.1⟩
+
+/-- … also while a constructor is running: the reserved entry is invisible to lookups. -/
+theorem C16_pool_direct_get_during_construction (ops : List POp) (n : Name) (s1 : State)
+    (h : poolReserve (afterP true ops) n = some s1) : poolGet true s1 n = .absent := by
+  have hi := pinv_afterP ops
+  have hcl : (afterP true ops).clientSet (afterP true ops).next = false := by
+    cases hc : (afterP true ops).clientSet (afterP true ops).next with
+    | false => rfl
+    | true => have := hi.client_lt _ hc; omega
+  unfold poolReserve at h
+  split at h
+  · cases h
+  · cases h
+    simp [poolGet, hcl]
+
+/-- A name without pool entry can be dialed: New succeeds when the constructor does, and the entry is
+    then usable; when the constructor fails New reports it and leaves the pool exactly as it was, so
+    the name can be dialed again (this is what D17 broke). -/
+theorem C16_pool_direct_new (ops : List POp) (n : Name) (h : (afterP true ops).conns n = none) :
+    let s := afterP true ops
+    (pnew true s n true).2 = .add .ok (some .absent) ∧
+    poolGet true (pnew true s n true).1 n = .usable s.next ∧
+    (pnew true s n false).2 = .add .conn (some .absent) ∧
+    (pnew true s n false).1.conns = s.conns ∧
+    (pnew true s n false).1.connOpen = s.connOpen := by
+  intro s
+  have hi := pinv_afterP ops
+  simp only [s]
+  rw [pnew_absent hi n true h, pnew_absent hi n false h]
+  simp [pnewOkState, failedState, poolGet, upd_upd_none _ _ _ h]
+
+/-- Closing a controller that has not been closed never panics; it deletes exactly its own pool entry,
+    closes its connection, ends the calls in flight on it, makes kept handles answer Unavailable, and
+    frees the name. -/
+theorem C16_pool_direct_close (ops : List POp) (k g : Nat)
+    (hk : (afterP true ops).issued[k]? = some g) (hc : (afterP true ops).ctrlClosed g = false) :
+    let s := afterP true ops
+    let s' := (pclose s k).1
+    (pclose s k).2 = .closed ∧
+    s.conns (s.ctrlTarget g) = some g ∧ s'.conns (s.ctrlTarget g) = none ∧
+    (∀ m, m ≠ s.ctrlTarget g → s'.conns m = s.conns m) ∧
+    s'.connOpen g = false ∧ (∀ c, s'.calls c ≠ some g) ∧
+    (∀ m, s.handles m = some g → stream s' m = .unavailable) := by
+  intro s s'
+  have hi := pinv_afterP ops
+  have i := hi.issuedOk g (List.mem_of_getElem? hk)
+  have own : s.conns (s.ctrlTarget g) = some g := hi.openIn g (i.2.2 hc)
+  simp only [s', s]
+  rw [pclose_live hi k g hk hc]
+  refine ⟨rfl, own, by simp [closedState], ?_, by simp [closedState], ?_, ?_⟩
+  · intro m hm; simp [closedState, hm]
+  · intro c hcc; simp [closedState] at hcc
+  · intro m hm; simp [stream, closedState, hm]
+
+
+/-- Concurrent use of the pool: in every state reachable by ANY interleaving of the atomic steps of
+    New (LoadOrStore … constructor running … completion), Get, Close and calls by any number of
+    goroutines, a lookup yields an open, unclosed connection or reports absence — a reservation whose
+    constructor is still running is never visible as a present-but-missing entry. -/
+theorem C16_pool_concurrent_get (c : CState) (h : GB.LTS.Reachable cstep cinit c) (n : Name) :
+    poolGet true c.s n = .absent ∨
+    ∃ g, poolGet true c.s n = .usable g ∧ c.s.connOpen g = true ∧ c.s.ctrlClosed g = false := by
+  have hi := cinv_reachable c h
+  cases hn : c.s.conns n with
+  | none => left; simp [poolGet, hn]
+  | some g =>
+    have e := hi.entry n g hn
+    cases e.2.2.2 with
+    | inl x => right; exact ⟨g, by simp [poolGet, hn, x.1], x.2.1, e.2.2.1⟩
+    | inr x => left; simp [poolGet, hn, x.1]
+
+/-- Every construction in progress completes cleanly whatever happened concurrently: if the
+    constructor succeeds the entry becomes usable, if it fails the reservation is released (the name
+    is free again) and no other entry is touched. -/
+theorem C16_pool_concurrent_finish (c : CState) (h : GB.LTS.Reachable cstep cinit c) (n : Name) (g : Nat)
+    (hp : (n, g) ∈ c.pending) :
+    (∃ c1, cstep c (.finish n g true) = some c1 ∧ poolGet true c1.s n = .usable g) ∧
+    (∃ c0, cstep c (.finish n g false) = some c0 ∧ c0.s.conns n = none ∧
+       ∀ m, m ≠ n → c0.s.conns m = c.s.conns m) := by
+  have hi := cinv_reachable c h
+  have hc := hi.pend n g hp
+  constructor
+  · refine ⟨_, by simp [cstep, hp]; rfl, ?_⟩
+    simp [poolFinish, poolGet, hc]
+  · refine ⟨_, by simp [cstep, hp]; rfl, ?_, ?_⟩
+    · simp [poolFinish, hc]
+    · intro m hm; simp [poolFinish, hc, hm]
+
+/-- Close of a handed-out controller that has not been closed is never a panic and deletes exactly its
+    own entry, under every interleaving (the entry under its name is always the controller itself). -/
+theorem C16_pool_concurrent_close (c : CState) (h : GB.LTS.Reachable cstep cinit c) (g : Nat)
+    (hi : g ∈ c.s.issued) (hc : c.s.ctrlClosed g = false) :
+    c.s.conns (c.s.ctrlTarget g) = some g ∧
+    ∃ s', ctrlClose c.s g = some s' ∧ cstep c (.close g) = some { c with s := s' } ∧
+      s'.conns (c.s.ctrlTarget g) = none ∧ s'.connOpen g = false ∧
+      ∀ m, m ≠ c.s.ctrlTarget g → s'.conns m = c.s.conns m := by
+  have hinv := cinv_reachable c h
+  have i := hinv.issuedOk g hi
+  have own := hinv.openIn g (i.2.2 hc)
+  refine ⟨own, ?_⟩
+  simp [cstep, hi, ctrlClose, hc, i.2.1]
+  intro m hm; simp [hm]
+
+/-- D17 on the ORIGINAL pool code (negative witness): a failed New poisons the name. -/
+theorem C16_D17_original_pool_fails :
+    (runP false init [.new 0 false, .new 0 true, .get 0]).2 =
+      [.add .conn (some .nilPresent), .add .dialed none, .get .nilPresent] := by
+  decide
+
+/-- D17, negative witness on the ORIGINAL code (`fx = false`): after one failed Add the name can never be
+    added again (the pool answers ErrAlreadyDialed) and the pool lookup is present-but-missing — during
+    the construction and forever after. -/
+theorem C16_D17_original_code_fails :
+    (runR false init [.add 0 .fail, .add 0 .ok, .get 0]).2 =
+      [.add .conn (some .nilPresent), .add .dialed none, .get .nilPresent] := by
+  decide
+
+/-- The same history on the fixed code: the failed Add leaves nothing behind. -/
+theorem C16_D17_fixed_witness :
+    (runR true init [.add 0 .fail, .add 0 .ok, .get 0]).2 =
+      [.add .conn (some .absent), .add .ok (some .absent), .get (.usable 1)] := by
+  decide
+
+/- The hypotheses above are satisfiable / the statements are not vacuous: -/
+example : (afterR true [.add 0 .ok, .get 0, .call 0]).targets 0 = some 0 := by decide
+example : (afterR true [.add 0 .ok, .get 0, .call 0]).handles 0 = some 0 := by decide
+example : (afterR true [.add 0 .ok, .get 0, .call 0]).calls 0 = some 0 := by decide
+example : (afterR true [.add 0 .ok, .remove 0]).targets 0 = none := by decide
+example : (runR true init [.add 0 .ok, .get 0, .remove 0, .add 0 .ok, .stream 0, .get 0, .stream 0]).2 =
+    [.add .ok (some .absent), .get (.usable 0), .removed, .add .ok (some .absent), .unavailable, .get (.usable 1), .streamOk] := by
+  decide
+example : (afterP true [.new 0 true, .get 0, .call 0]).issued[0]? = some 0 := by decide
+example : (afterP true [.new 0 true, .get 0, .call 0]).ctrlClosed 0 = false := by decide
+example : (runP true init [.new 0 false, .new 0 true, .get 0, .call 0, .close 0, .stream 0, .close 0, .new 0 true]).2 =
+    [.add .conn (some .absent), .add .ok (some .absent), .get (.usable 1), .streamOk, .closed, .unavailable, .panic,
+     .add .ok (some .absent)] := by decide
+example : GB.LTS.run cstep cinit [.reserve 0, .get 0, .reserve 0, .finish 0 0 false, .reserve 0, .finish 0 1 true, .get 0, .close 1]
+    ≠ none := by decide
